@@ -139,10 +139,20 @@ class SModel(KModel):
         lib = self.interp.lib
         if lib.is_role(name, 'CubicSpline::thomas') and self.scn.get('summarise_thomas', True):
             vals = [deref_all(a) for a in args]
-            k, rhs = vals[0], vals[-1]
+            from .roles import solver_param_roles
+            tb = lib.body('CubicSpline::thomas')
+            ps = [p_.get('ty', '') if isinstance(p_, dict) else str(p_) for p_ in (tb or {}).get('params', [])]
+            proles = solver_param_roles(lib, ps) if tb else None
+            if proles is None or len(proles) != len(vals):
+                proles = ['k'] + ['coef'] * (len(vals) - 2) + ['rhs']
+            k = rhs = None
             coeffs = []
-            for v in vals[1:-1]:
-                if isinstance(v, Obj) and v.kind == 'arr1':
+            for v, pr in zip(vals, proles):
+                if pr == 'k':
+                    k = v
+                elif pr == 'rhs':
+                    rhs = v
+                elif isinstance(v, Obj) and v.kind == 'arr1':
                     coeffs.append(v)
                 elif isinstance(v, Enum):
                     coeffs += [deref_all(x) for x in self._struct_fields_in_order(v) if isinstance(deref_all(x), Obj) and deref_all(x).kind == 'arr1']
